@@ -46,6 +46,42 @@ REGISTRY = {
     },
 }
 
+REGISTRY["C03"] = {
+    "modules": ["contracts.decoder"],
+    "category": "proof",
+    "technique": "contract-based deductive verification of the real code: ispec.decode executed on fully symbolic instruction bytes for every shipped specification, postconditions from an independent interpreter of the format grammar, VCs discharged by z3; buildspec compared exhaustively over the finite set of shipped formats",
+    "level_text": "For every shipped specification (all importable cpu modules) the contract of ispec.decode is discharged for ALL instruction words and trailing bytes (symbolic bytes through the real Bits loader): accept iff fixed bits match, every symbol receives exactly the bits the documented grammar assigns to it in the documented form, instruction.bytes = consumed bytes. buildspec (mask/fix/size/prefix flag/symbol set) and the ia32 '/r' '/digit' macro are compared with the independent interpreter for every shipped format (finite, exhaustive). Quick tier: each distinct format at the ISA's endianness with one trailing byte, other endianness/tails on a seeded third; thorough: every combination.",
+    "level_note": "trusted: z3, CPython dispatch, symx engine and shims (isinstance/bytes/int in amoco.arch.core and crysp.bits), specs/fmtsem.py (written from the ispec docstring). Hooks and preconditions are replaced by a recorder (their behaviour is C17/C06's subject). Synthetic formats beyond the shipped ones: not covered by this check. Three cpu modules fail to import on the pinned tree (avr, ppc32 e200, sh4) and are not covered.",
+    "design_ref": "DESIGN.md section 4 (C03)",
+    "explanation": "contracts of ispec.buildspec/decode discharged for every shipped specification on symbolic instruction bytes",
+    "trusted_base": _TB + ["specs/fmtsem.py (independent interpreter of the format grammar)", "recorder hook in place of the specification's setup function"],
+    "assumptions": _AS_COMMON + ["cpu modules that fail to import on this tree are out of scope: amoco.arch.avr.cpu, amoco.arch.ppc32.cpu_e200, amoco.arch.superh.cpu_sh4"],
+}
+
+REGISTRY["C04"] = {
+    "modules": ["contracts.disasm"],
+    "category": "proof",
+    "technique": "contract-based deductive verification of the real code: disassembler.__call__ (key computation, justification, tree walk, leaf scan, real ispec.decode) executed on fully symbolic byte strings for every cpu module and mode; postcondition 'winner = first accepting specification of the most-constrained-first scan' discharged by z3 on every path; routing invariant of every tree node checked exhaustively",
+    "level_text": "For every importable cpu module and decode mode and every byte-string length of the tier, the real __call__ runs on symbolic bytes; on every path the returned specification is proved to be the first one of the stable most-constrained-first order (rebuilt from the format strings by the independent grammar interpreter) that accepts the bytes, or None when none does. The routing invariant (each specification's fixed bits imply its path; leaves partition the specifications in scan order) is checked on every node of every tree actually built.",
+    "level_note": "trusted: z3, CPython dispatch, symx engine/shims, specs/fmtsem.py. Setup functions and preconditions are replaced by an accepting recorder (same function of the same bytes on both routes; specifications outside the reached leaf fail their fixed bits before any hook runs - that is the routing invariant). Recursion after a prefix specification is cut at depth 1 and replaced by the same contract (induction on consumed bytes). Tree dict nodes are wrapped for symbolic keys. Quick tier: lengths {0,1,2,maxlen,maxlen+1} (x86/x64/dwarf/wasm/eBPF: {0..4, maxlen}); thorough: 0..maxlen+1.",
+    "design_ref": "DESIGN.md section 4 (C04)",
+    "explanation": "contract of disassembler.__call__ discharged on symbolic byte strings for every shipped ISA/mode",
+    "trusted_base": _TB + ["specs/fmtsem.py", "accepting recorder in place of setup functions and preconditions", "SymKeyDict wrapper of the tree's dict nodes", "recursion after a prefix cut at depth 1 (induction)"],
+    "assumptions": _AS_COMMON + ["cpu modules that fail to import on this tree are out of scope (avr, ppc32 e200, sh4)"],
+}
+
+REGISTRY["C11"] = {
+    "modules": ["contracts.disasm"],
+    "category": "other",
+    "technique": "contract-based deductive verification of the real code: ghost invariant 'no pending prefix instruction at any exit of disassembler.__call__' discharged on symbolic byte strings with every setup function replaced by a stub whose outcome is a symbolic choice (returns / InstructionError / DecodeError / any other exception); ispec.decode rollback contract on symbolic bytes",
+    "level_text": "Bounded symbolic verification: for every cpu module/mode, all byte strings of the listed lengths and ALL outcomes of every setup function, the pending-instruction slot is empty at every normal and exceptional exit of a top-level call and the returned instruction's bytes are a prefix of this call's bytes; prefix chains are cut after the first prefix (the recursive call is the contract itself). ispec.decode's rollback on InstructionError restores the pending instruction's bytes and attributes (proof level per specification).",
+    "level_note": "trusted as C04. Call histories are not enumerated: the invariant makes every call start from the same state (the only state the disassembler keeps between calls is the pending slot), which is the induction the property needs; global decode state outside the disassembler object (env.internals, regtype) is C10's subject.",
+    "design_ref": "DESIGN.md section 4 (C11)",
+    "explanation": "ghost invariant (pending slot empty at every exit, all hook outcomes) on the real __call__, bounded by cutting prefix recursion at depth 1",
+    "trusted_base": _TB + ["specs/fmtsem.py", "hook stubs with symbolic outcome", "SymKeyDict wrapper", "recursion cut (induction)"],
+    "assumptions": _AS_COMMON,
+}
+
 NOT_APPLICABLE = {
     "C07": "the oracle is the behaviour of two external programs (binutils, LLVM): no contract on amoco's functions can state it without hand-writing a model of those decoders; a vendored table comparison is example-based testing, a different family",
 }
